@@ -103,5 +103,31 @@ example : (roundTripModule sample).map (·.names) =
     some (some { module := some "m", funcs := [(0, "big"), (1, "small")], locals := [(0, [(0, "used")])] }) := by
   decide
 
+/-- **several name sections**: the later section's name for an entity wins, and an entity the later
+    section does not name keeps the name the earlier section gave it (stated for globals; the other
+    index spaces are the same field-wise append) -/
+theorem later_name_section_wins (a b : NamesM) (i : Nat) :
+    lastName (mergeNames a b).globals i = (lastName b.globals i).or (lastName a.globals i) ∧
+    lastName (mergeNames a b).funcs i = (lastName b.funcs i).or (lastName a.funcs i) ∧
+    lastName (mergeNames a b).tables i = (lastName b.tables i).or (lastName a.tables i) ∧
+    lastName (mergeNames a b).mems i = (lastName b.mems i).or (lastName a.mems i) ∧
+    lastName (mergeNames a b).elems i = (lastName b.elems i).or (lastName a.elems i) ∧
+    lastName (mergeNames a b).datas i = (lastName b.datas i).or (lastName a.datas i) ∧
+    lastName (mergeNames a b).types i = (lastName b.types i).or (lastName a.types i) := by
+  simp [mergeNames, lastName_append]
+
+/-- a reader that gives up does so for its own section only: whatever the first section contains
+    (also a local-name entry for a missing function), the second section's global, memory, table,
+    element and data names are applied as if it stood alone -/
+theorem giving_up_is_per_section (nF : Nat) (s1 s2 : NamesM) (i : Nat) (x : String)
+    (h : lastName (appliedNames nF s2).globals i = some x) :
+    lastName (appliedNameSections nF [s1, s2]).globals i = some x := by
+  simp [appliedNameSections, mergeNames, lastName_append, h]
+
+/-- one section alone: exactly `appliedNames` -/
+theorem single_section (nF : Nat) (s : NamesM) : appliedNameSections nF [s] = appliedNames nF s := by
+  simp [appliedNameSections, mergeNames]
+  cases h : (appliedNames nF s).module <;> simp <;> (cases hh : appliedNames nF s; simp_all)
+
 end C13
 end Walrus
